@@ -279,6 +279,20 @@ def _ground_numeric_path(name):
             bad.append(("dagger-numeric", pv, 0.0))
         if g.is_hermitian and np.abs(M - M.conj().T).max() > 1e-9:
             bad.append(("selfadjoint-numeric", pv, 0.0))
+        # the same gate reached by RE-PARAMETRISING a gate that was created at special angles (0, whole turns as float and as
+        # exact multiples of sympy.pi - where the matrix happens to be self-adjoint or the identity): whatever was decided about
+        # the gate at creation must not survive the move to other angles
+        for start in ([0] * npar, [0.0] * npar, [2 * sympy.pi] * npar, [4 * sympy.pi] * npar, [sympy.pi] * npar):
+            try:
+                h = obj(*start).replace_params(tuple(pv))
+            except Exception as e:
+                bad.append(("replace-params-numeric", pv, 0.0))
+                break
+            Mh = np.array(h.matrix.evalf(), dtype=complex)
+            Dh = np.array(h.dagger.matrix.evalf(), dtype=complex)
+            if Mh.shape != M.shape or np.abs(Mh - M).max() > 1e-9 or Dh.shape != M.shape or np.abs(Dh - M.conj().T).max() > 1e-9 or (h.is_hermitian and np.abs(M - M.conj().T).max() > 1e-9):
+                bad.append(("replace-params-numeric", pv, float(np.abs(Dh - M.conj().T).max()) if Dh.shape == M.shape else 0.0))
+                break
         if name in GROUP_GATES:
             a, b = vs[0], vs[1]
             Ma, Mb, Mab = (np.array(obj(x).matrix.evalf(), dtype=complex) for x in (a, b, a + b))
@@ -422,7 +436,7 @@ def replay(data):
     if clause == "computable":
         ok, detail = _ground_computable(name)
         return (not ok), detail
-    if clause in ("numeric-vs-symbolic", "unitary-numeric", "group-law-numeric", "dagger-numeric", "selfadjoint-numeric"):
+    if clause in ("numeric-vs-symbolic", "unitary-numeric", "group-law-numeric", "dagger-numeric", "selfadjoint-numeric", "replace-params-numeric"):
         bad = [b for b in _ground_numeric_path(name) if b[0] == clause]
         return bool(bad), str(bad[:2])
     if clause in ("group-law",):
